@@ -581,10 +581,21 @@ class PeriodicOrbit(_HitenBase):
         
         return pd.DataFrame(np.column_stack((traj.times, traj.states)), columns=["time", "x", "y", "z", "vx", "vy", "vz"])
 
+    def __getstate__(self):
+        """Pickle state: the correction options set by the user live in the correction
+        service (dropped with the services), so carry them explicitly."""
+        state = super().__getstate__()
+        state["_saved_correction_options"] = getattr(self._correction, "_correction_options", None)
+        return state
+
     def __setstate__(self, state):
         """Restore the PeriodicOrbit instance after unpickling."""
+        state = dict(state)
+        correction_options = state.pop("_saved_correction_options", None)
         super().__setstate__(state)
         self._setup_services(_OrbitServices.default(self))
+        if correction_options is not None:
+            self._correction.correction_options = correction_options
 
     def load_inplace(self, filepath: str, **kwargs) -> None:
         """Load orbit data from a file in place."""
